@@ -64,6 +64,19 @@ CLAIMED["C20"] = (
     "Trusts TLC/Json and the recording Compiler wrapper (it forwards Compiler::reset); 7 history templates (0..5 outputs, with/without min_utxo, one failing), 5 targets, 2 stores.",
     "DESIGN.md section 5, C20")
 
+CLAIMED["C01"] = (
+    "TLC-enumerated slot x expression matrix of core programs (MC_Lang) printed in three layouts, run through parse/analyse/lower/apply/reduce/compile, decoded by an independent CBOR reader + TLC trace validation against the big-step denotation DenoteTx (Trace_Lang)",
+    "TLC enumerates programs and checks that the denotation is defined for each; every program x environment x layout goes through the real pipeline and TLC compares the decoded payload with DenoteTx field by field "
+    "(inputs, outputs in order with address/lovelace/assets/datum, mint, validity, signers, references, collateral, metadata, fee, network) and the payloads of the three layouts with each other.",
+    "Trusts TLC/Json, the pretty-printer gen/pp.py, the driver's CBOR reader; denotation fixed by DESIGN 9b; bounds: one varied slot at a time (18 slots), expression depth <= 2, 2-3 environments.",
+    "DESIGN.md section 5, C01")
+CLAIMED["C02"] = (
+    "TLC-enumerated boundary matrix (MC_Lang b_* slots: ledger field x expression shape x boundary value, exact values by BigInt.tla) run through the whole pipeline + TLC trace validation against DenoteTx with field ranges (Trace_Lang)",
+    "For every numeric ledger field and every expression shape producing it, the parameter takes each boundary value (0, +-1, +-2^31.., +-2^63, +-2^64, i128 extremes); TLC computes the exact value and whether the field can hold it, and validates that the real pipeline "
+    "emits exactly that value or fails; balanced templates (change = input - send - fees, with mint / burn) are included so that value preservation follows from field equality.",
+    "Trusts TLC/Json/BigInt.tla (self-checked); dev profile (overflow checks on); three recorded findings for output amounts pinned by the baseline suite.",
+    "DESIGN.md section 5, C02")
+
 ALL = ["C%02d" % i for i in range(1, 21)]
 
 NOT_YET = "check not built yet in this revision of /verif (planned: see DESIGN.md section 5); not claimed until its machinery exists and is quiet on the unchanged tree"
